@@ -457,6 +457,13 @@ class Runner:
                     spy.thread.join(10)
                 self.cm._buffered_notifications_lock = real
 
+    @staticmethod
+    def stale_version(table, handle, n):
+        """the version counter an application-made container carries when it RE-creates a removed handle: an old copy
+        still has some earlier version (the library must continue from the remembered one whatever the container says);
+        a handle that never existed starts at 0"""
+        return (n % 4) if table.handle_version_lookup.get(handle) is not None else 0
+
     def real_handle(self, h):
         if h is None:
             return None
@@ -499,7 +506,7 @@ class Runner:
                             ent = self.pm.entities.by_handle(self.template(type_name).Handle)   # private deep copies
                             ent.descriptor.Handle = handle
                             ent.descriptor.parent_handle = parent
-                            ent.descriptor.DescriptorVersion = 0
+                            ent.descriptor.DescriptorVersion = self.stale_version(self.pm.descriptions, handle, n)
                             # like ProviderEntityGetter.new_entity: the source MDS is inherited from the parent; a
                             # descriptor without parent is an MDS and its own source
                             par = self.pm.descriptions.handle.get_one(parent, allow_none=True) if parent is not None else None
@@ -512,7 +519,7 @@ class Runner:
                             else:
                                 ent.state.DescriptorHandle = handle
                                 ent.state.descriptor_container = ent.descriptor
-                                ent.state.StateVersion = 0
+                                ent.state.StateVersion = self.stale_version(self.pm.states, handle, n + 1)
                                 if with_state is not None:
                                     mdibrun.set_payload(ent.state, with_state, self.pm_types)
                             tr.write_entity(ent)
@@ -520,12 +527,13 @@ class Runner:
                             d = copy.deepcopy(self.template(type_name))
                             d.Handle = handle
                             d.parent_handle = parent
-                            d.DescriptorVersion = 0
+                            d.DescriptorVersion = self.stale_version(self.pm.descriptions, handle, n)
                             d.set_source_mds(None)                    # a new descriptor: the library determines its MDS
                             mdibrun.set_payload(d, n, self.pm_types)
                             st = None
                             if not d.is_context_descriptor:
                                 st = self.pm.data_model.mk_state_container(d)
+                                st.StateVersion = self.stale_version(self.pm.states, handle, n + 1)
                                 if with_state is not None:
                                     mdibrun.set_payload(st, with_state, self.pm_types)
                             tr.add_descriptor(d, state_container=st)
